@@ -54,6 +54,9 @@ func (c *Ctx) regionInit(name string, gen int) string {
 	if !c.funDecls["const:"+n] {
 		c.funDecls["const:"+n] = true
 		c.declare(n, sort_)
+		if name == "$tpos" {
+			c.addAssert(and(sx("<=", "0", n), sx("<=", n, tposMax)), -1)
+		}
 	}
 	return n
 }
